@@ -691,7 +691,9 @@ type c12Req struct {
 	// BySize (select): the selection goes through SelectUtxosBySize (as many unlocked outputs as fit into half a block,
 	// with locking) instead of SelectUtxos
 	BySize bool `json:"bysize,omitempty"`
-	Block  int  `json:"block,omitempty"` // play: model block index (confirmed, child of the pointer, not played)
+	// Exclude (select, not by size): only outputs of confirmed transactions may be selected (excludeUnconfirmed)
+	Exclude bool `json:"exclude,omitempty"`
+	Block   int  `json:"block,omitempty"` // play: model block index (confirmed, child of the pointer, not played)
 }
 
 // c12StateTrace: sequential prefix, concurrent requests, schedule.
@@ -904,7 +906,7 @@ func (e *c12Env) body(i int) func() {
 			}
 		}
 		return func() {
-			r.ins, r.lockKeys, r.total, r.err = st.SelectUtxos(addr, need, true, false)
+			r.ins, r.lockKeys, r.total, r.err = st.SelectUtxos(addr, need, true, rq.Exclude)
 			r.finished = true
 		}
 	default:
@@ -1497,12 +1499,24 @@ func (e *c12Env) selectorOracle(out *c12Outcome, modelOK, race bool) error {
 			univ[u.Key()] = u
 		}
 	}
+	// transactions that are pending in some serial order and confirmed in none (exclude-unconfirmed selections)
+	onlyPending, everPending := map[string]bool{}, map[string]bool{}
+	for _, t := range append(append([]*pb.Transaction{}, e.oldPool...), A...) {
+		onlyPending[string(t.Txid)] = true
+		everPending[string(t.Txid)] = true
+	}
+	for _, t := range blockTxs {
+		delete(onlyPending, string(t.Txid))
+	}
 	handed := map[string]int{}
 	for i, r := range runs {
 		if reqs[i].Kind != "select" || r.skip != "" || r.err != nil {
 			continue
 		}
 		out.label("select-ok")
+		if reqs[i].Exclude {
+			out.label("select-exclude-unconfirmed-ok")
+		}
 		addr := hx.Ring[reqs[i].Addr].Address
 		need, _ := new(big.Int).SetString(reqs[i].Need, 10)
 		sum := big.NewInt(0)
@@ -1518,6 +1532,9 @@ func (e *c12Env) selectorOracle(out *c12Outcome, modelOK, race bool) error {
 			}
 			if u.Frozen == -1 || u.Frozen > h {
 				return fmt.Errorf("SelectUtxos returned the frozen output %s (frozen until %d, ledger height %d)", k, u.Frozen, h)
+			}
+			if reqs[i].Exclude && onlyPending[string(in.RefTxid)] {
+				return fmt.Errorf("SelectUtxos(excludeUnconfirmed) returned %s, an output of a transaction that is confirmed in no serial order", k)
 			}
 			if !bytes.Equal(u.Amount.Bytes(), in.Amount) {
 				return fmt.Errorf("SelectUtxos returned %s with amount %x, the output has %s", k, in.Amount, u.Amount)
@@ -1536,6 +1553,9 @@ func (e *c12Env) selectorOracle(out *c12Outcome, modelOK, race bool) error {
 			continue
 		}
 		out.label("select-failed")
+		if reqs[i].Exclude {
+			out.label("select-exclude-unconfirmed-failed")
+		}
 		if reqs[i].BySize {
 			continue // a selection by size has no amount to fail on
 		}
@@ -1545,9 +1565,10 @@ func (e *c12Env) selectorOracle(out *c12Outcome, modelOK, race bool) error {
 		if !modelOK {
 			continue
 		}
-		if race {
-			// real goroutines: two selections on one address can each lock what the other needs and
-			// both give up (all-or-fail, like TryLock); such refusals are not judged
+		{
+			// two selections on one address that overlap in time (real goroutines, or - since the yield points of
+			// hook e0cb9d0 - interleaved scans) can each lock what the other needs and both give up (all-or-fail,
+			// like TryLock); such refusals are not judged
 			other := false
 			for j := range runs {
 				if j != i && reqs[j].Kind == "select" && reqs[j].Addr == reqs[i].Addr {
@@ -1568,6 +1589,9 @@ func (e *c12Env) selectorOracle(out *c12Outcome, modelOK, race bool) error {
 		for _, u := range s.UtxosOf(addr) {
 			if u.Frozen == -1 || u.Frozen > h || spent[u.Key()] || final.U[u.Key()] == nil {
 				continue
+			}
+			if reqs[i].Exclude && everPending[string(u.Txid)] {
+				continue // confirmed only in the serial orders in which the play comes first
 			}
 			if _, locked := handed[u.Key()]; locked {
 				continue
@@ -1766,7 +1790,15 @@ func (g *c12Gen) selector(addr int) *c12Req {
 	if need.Sign() <= 0 {
 		need = big.NewInt(1)
 	}
-	return &c12Req{Kind: "select", Addr: addr, Need: need.String(), BySize: rapid.IntRange(0, 2).Draw(g.rt, "bysize") == 0}
+	rq := &c12Req{Kind: "select", Addr: addr, Need: need.String(), BySize: rapid.IntRange(0, 2).Draw(g.rt, "bysize") == 0}
+	if !rq.BySize && rapid.IntRange(0, 2).Draw(g.rt, "exclude") == 0 {
+		rq.Exclude = true
+		if rapid.Bool().Draw(g.rt, "excludefails") {
+			// more than the address owns: the selection scans everything, skips what is unconfirmed and gives up
+			rq.Need = new(big.Int).Add(sum, big.NewInt(1)).String()
+		}
+	}
+	return rq
 }
 
 // c12GenReqs draws 2-4 requests chosen to conflict (all against the model state g.s).
